@@ -542,4 +542,70 @@ theorem callsFrom_nodup (conns : List Nat) (e : Nat) (h : conns.Nodup) :
       simp only [List.filter_cons, h1, Bool.false_eq_true, ↓reduceIte, ih hn.2, List.contains_cons, h2,
         Bool.false_or]
 
+/-! ## Part C — macro reconfiguration of a hand-made wiring -/
+
+/-- mirror image: an emitter lists a receiver iff the receiver lists the emitter -/
+def Wiring.Mir (w : Wiring) : Prop := ∀ s r, r ∈ w.out s ↔ s ∈ w.inList r
+
+theorem Wiring.empty_mir : Wiring.empty.Mir := by
+  intro s r; simp [Wiring.empty, Wiring.inList]
+
+theorem Wiring.mem_connect_out (w : Wiring) (s : Sig) (r : Recv) (s' : Sig) (r' : Recv) :
+    r' ∈ (w.connect s r).out s' ↔ r' ∈ w.out s' ∨ (s' = s ∧ r' = r) := by
+  unfold Wiring.connect
+  split
+  · rename_i h
+    have : r ∈ w.out s := by simpa using h
+    constructor
+    · intro h'; exact Or.inl h'
+    · rintro (h' | ⟨rfl, rfl⟩)
+      · exact h'
+      · exact this
+  · by_cases hs : s' = s
+    · subst hs; simp [updF]; grind
+    · simp [updF, hs]
+
+theorem Wiring.mem_connect_in (w : Wiring) (hm : w.Mir) (s : Sig) (r : Recv) (s' : Sig) (r' : Recv) :
+    s' ∈ (w.connect s r).inList r' ↔ s' ∈ w.inList r' ∨ (s' = s ∧ r' = r) := by
+  unfold Wiring.connect
+  split
+  · rename_i h
+    have : s ∈ w.inList r := (hm s r).1 (by simpa using h)
+    constructor
+    · intro h'; exact Or.inl h'
+    · rintro (h' | ⟨rfl, rfl⟩)
+      · exact h'
+      · exact this
+  · obtain ⟨n, a⟩ := r
+    obtain ⟨n', a'⟩ := r'
+    cases a <;> cases a' <;> by_cases hn : n' = n <;> simp [Wiring.inList, updF, hn] <;> grind
+
+theorem Wiring.connect_mir (w : Wiring) (hm : w.Mir) (s : Sig) (r : Recv) : (w.connect s r).Mir := by
+  intro s' r'
+  rw [Wiring.mem_connect_out, Wiring.mem_connect_in w hm, hm s' r']
+
+theorem Wiring.connectAll_spec (L : List (Sig × Recv)) : ∀ (w : Wiring), w.Mir →
+    (w.connectAll L).Mir ∧ ∀ s r, r ∈ (w.connectAll L).out s ↔ r ∈ w.out s ∨ (s, r) ∈ L := by
+  induction L with
+  | nil => intro w hm; exact ⟨hm, by simp [Wiring.connectAll]⟩
+  | cons p rest ih =>
+    intro w hm
+    obtain ⟨h1, h2⟩ := ih (w.connect p.1 p.2) (Wiring.connect_mir w hm p.1 p.2)
+    refine ⟨h1, ?_⟩
+    intro s r
+    simp only [Wiring.connectAll]
+    rw [h2, Wiring.mem_connect_out]
+    obtain ⟨ps, pr⟩ := p
+    simp only [List.mem_cons, Prod.mk.injEq]
+    grind
+
+theorem Wiring.mem_runPairs (w : Wiring) (ch : List Nat) (s : Sig) (r : Recv) :
+    (s, r) ∈ w.runPairs ch ↔ r.node ∈ ch ∧ s ∈ w.inList r := by
+  induction ch with
+  | nil => simp [Wiring.runPairs]
+  | cons i rest ih =>
+    obtain ⟨n, a⟩ := r
+    simp only [Wiring.runPairs, List.mem_append, List.mem_map, Prod.mk.injEq, ih, List.mem_cons]
+    cases a <;> simp [Wiring.inList] <;> grind
+
 end PwVerif.Signal
